@@ -255,6 +255,8 @@ fn op_binop(req: &J) -> J {
         .iter()
         .map(|j| if j.get("fail").bool() { None } else { Some(build_val(j)) })
         .collect();
+    // "shared": the (single) right-hand operand is a clone of `a` (same Rc storage), as after `let y be x`
+    let rhs: Vec<Option<Val>> = if req.get("shared").bool() { vec![Some(a.clone())] } else { rhs };
     let calls = std::cell::RefCell::new(Vec::<usize>::new());
     let thunks = rhs.iter().enumerate().map(|(i, v)| {
         let calls = &calls;
